@@ -193,7 +193,7 @@ Print Assumptions C08_refused_while_importing.
    [wf_xhistory2] history. *)
 Definition before_debit_repair : fixes :=
   {| f_removable := true; f_rollback := true; f_import_retry := true; f_start_reorg := true; f_rollback_order := true;
-     f_import_tipcheck := true; f_removable_debit := false; f_ff_check := true |}.
+     f_import_tipcheck := true; f_removable_debit := false; f_ff_check := true; f_keystore_undo := true |}.
 Definition r1 := {| b_id := 1; b_prev := 0; b_height := 1; b_txs := [cb 1 [pay 1 500]] |}.
 Definition r2 := {| b_id := 2; b_prev := 1; b_height := 2;
                     b_txs := [cb 2 []; {| t_id := 3; t_cb := false; t_ins := [(1, 0)%N]; t_outs := [pay 2 500] |}] |}.
